@@ -15,6 +15,7 @@ import (
 	"strconv"
 	"strings"
 	"sync"
+	"sync/atomic"
 	"time"
 	"unicode/utf8"
 
@@ -61,6 +62,11 @@ type c11Case struct {
 	// PauseMs > 0: the backend does not read for that long after the upgrade and then
 	// resumes; meanwhile the client posts more than socket buffers and queue absorb.
 	PauseMs int `json:"pause_ms,omitempty"`
+	// PingUs > 0: the backend sends a websocket ping every PingUs microseconds while the
+	// client uploads C2S messages of 0.5-1 MiB (each one many frames on the wire).
+	PingUs int `json:"ping_us,omitempty"`
+	// Rewrite: the Proxy is built with rewriteWebsocketHost on (independent of Inject).
+	Rewrite bool `json:"rewrite,omitempty"`
 }
 
 type c11Spec struct {
@@ -113,7 +119,7 @@ func c11Main(specBytes []byte) {
 	var wg sync.WaitGroup
 	for _, c := range spec.Cases {
 		c := c
-		if c.Quiet > 0 || c.PauseMs > 0 { // mostly waiting: does not take one of the parallel slots
+		if c.Quiet > 0 || c.PauseMs > 0 || c.PingUs > 0 { // mostly waiting / run alongside: does not take one of the parallel slots
 			wg.Add(1)
 			go func() {
 				defer wg.Done()
@@ -494,7 +500,7 @@ func c11Run(b *shimBackend, c c11Case) (res c11Result) {
 	timedOut := func() { vmu.Lock(); res.Timeout = true; vmu.Unlock() }
 	panicked := func(p string) { vmu.Lock(); res.Panic = p; vmu.Unlock() }
 	rng := rand.New(rand.NewSource(c.Seed))
-	h := shimProxy(nil, b.addr, "shim", false, c.Inject)
+	h := shimProxy(nil, b.addr, "shim", c.Rewrite, c.Inject)
 	if c.CloseRace {
 		c11CloseRace(b, c, rng, h, &res, violate, timedOut)
 		return
@@ -505,6 +511,10 @@ func c11Run(b *shimBackend, c c11Case) (res c11Result) {
 	}
 	if c.PauseMs > 0 {
 		c11Pause(b, c, rng, h, &res, violate, timedOut)
+		return
+	}
+	if c.PingUs > 0 {
+		c11Pings(b, c, rng, h, &res, violate, timedOut)
 		return
 	}
 	version := c.Version
@@ -1154,6 +1164,77 @@ func c11Pause(b *shimBackend, c c11Case, rng *rand.Rand, h http.Handler, res *c1
 		}
 	}
 	res.PollShape = "pause:" + strings.Join(hist, " ")
+	shimPost(h, "close", nil, shimIDBody(id), shimBoundCall)
+}
+
+// c11Pings: the client uploads c.C2S messages of 0.5-1 MiB (hundreds of
+// frames each) while the backend sends keep-alive pings every c.PingUs
+// microseconds. The backend has to receive exactly what was posted, in order.
+func c11Pings(b *shimBackend, c c11Case, rng *rand.Rand, h http.Handler, res *c11Result, violate func(sig, msg string), timedOut func()) {
+	token := c.ID + "-pg"
+	id, bc, a := shimOpen(h, b, token, "/socket/"+c.ID, 1, [2]string{"X-Verif-Ping", strconv.Itoa(c.PingUs)})
+	if id == "" || bc == nil {
+		violate("C11:open-failed", fmt.Sprintf("open answered %d %s", a.Status, shimTrunc(string(a.Body), 200)))
+		return
+	}
+	defer b.forget(token)
+	var sent []shimMsg
+	block := c11Text(rng, 64<<10)
+	for len(sent) < c.C2S {
+		k := 1 + rng.Intn(3)
+		var ms []shimMsg
+		for j := 0; j < k && len(sent)+len(ms) < c.C2S; j++ {
+			size := 512<<10 + rng.Intn(512<<10)
+			d := bytes.Repeat(block, size/len(block)+1)[:size]
+			for !utf8.Valid(d) {
+				d = d[:len(d)-1]
+			}
+			d = append([]byte(fmt.Sprintf("#%d ", len(sent)+len(ms))), d...)
+			ms = append(ms, shimMsg{websocket.TextMessage, d})
+		}
+		var items []map[string]interface{}
+		for _, m := range ms {
+			items = append(items, map[string]interface{}{"id": id, "msg": string(m.D)})
+		}
+		body, _ := json.Marshal(items)
+		sent = append(sent, ms...)
+		d := shimPost(h, "data", nil, body, 120*time.Second)
+		res.Posts++
+		if d.Panic != "" {
+			violate("C11:panic:"+shimSlug(d.Panic), "data post panicked: "+d.Panic)
+			return
+		}
+		if !d.Answered {
+			timedOut()
+			violate("C11:data-post-unanswered", "data post of large messages to a pinging backend not answered within 120s")
+			return
+		}
+		if d.Status != 200 {
+			break // the comparison below says what arrived
+		}
+	}
+	sent = append(sent, shimMsg{websocket.TextMessage, c11EndText})
+	e := shimPost(h, "data", nil, []byte(`[{"id":"`+id+`","msg":"\u0000verif-end-of-history"}]`), 60*time.Second)
+	if e.Answered && e.Status == 200 {
+		if !bc.waitRecv(func(r []shimMsg) bool { return len(r) > 0 && bytes.Equal(r[len(r)-1].D, c11EndText) }, 60*time.Second) {
+			timedOut()
+		}
+	} else {
+		time.Sleep(time.Second)
+	}
+	got := bc.received()
+	res.C2S += len(got)
+	for _, m := range got {
+		res.Bytes += int64(len(m.D))
+	}
+	pings := atomic.LoadInt64(&bc.pushed)
+	res.PollShape = fmt.Sprintf("pings:%d", pings)
+	if sig, msg := c11Compare(sent, got, func(_ int, a, g shimMsg) string { return c11Same(a, g) }); sig != "" {
+		bc.mu.Lock()
+		cerr := bc.cerr
+		bc.mu.Unlock()
+		violate("C11:client-to-server:"+sig, fmt.Sprintf("%d messages of 0.5-1 MiB uploaded while the backend sent %d keep-alive pings (one per %d us): %s; end marker post answered %d; backend connection ended with %q", len(sent)-1, pings, c.PingUs, msg, e.Status, cerr))
+	}
 	shimPost(h, "close", nil, shimIDBody(id), shimBoundCall)
 }
 
